@@ -186,4 +186,22 @@ theorem try_header_needs_early_output :
     tryHeader Stored.decompressor paddedFile = .err .decode := by
   decide +kernel
 
+/-! ### `EarlyOutput` and the stored-block codec of the driver -/
+
+/-- the stored-block layout that spends the MOST stream bytes per content byte: every block holds one byte
+(6 stream bytes each; the driver's compressor never writes an empty block). `blob 40\0` + 40 bytes: 299 bytes. -/
+def tinyBlocksFile : Bytes :=
+  [0x78, 0x01] ++ ((looseHeader .blob 40 ++ List.replicate 40 120).flatMap fun b => Stored.blockHeader false 1 ++ [b]) ++
+  Stored.blockHeader true 0 ++ [226, 27, 20, 228]
+
+/-- Checked instance (kernel evaluation, not a derivation for all stored streams): even in that worst layout the
+first 192 bytes of the stream yield 31 ≥ 28 content bytes, `try_header` answers, and the object is found.
+For real zlib `EarlyOutput` is checked by the oracle on every object gitoxide and git wrote (`try_header` = Ok);
+for all streams of a codec it is PROVED only for the codec of Lemmas/C56Toy.lean (`Toy.earlyOutput`). -/
+theorem early_output_stored_worst_layout :
+    ((Stored.decompress Stored.decompressor.init (tinyBlocksFile.take 192) 64 false).map fun r => r.produced.length) = some 31 ∧
+    tryHeader Stored.decompressor tinyBlocksFile = .ok 40 .blob ∧
+    findInner Stored.decompressor tinyBlocksFile = .ok .blob (List.replicate 40 120) := by
+  decide +kernel
+
 end GixModel.Props.C11
